@@ -650,10 +650,12 @@ package larking
 //@   assert atcall `ws.NewCloseFrameBody(` [websocket-close-reason-fits-a-control-frame C05] len(arg1) <= 123
 //@   assert atcall `ws.NewCloseFrameBody(` [websocket-close-reason-is-the-message-as-far-as-it-fits C05] len(arg1) <= len(StatusMsgOf(s#2))
 //@        && (len(StatusMsgOf(s#2)) <= 123 ==> len(arg1) == len(StatusMsgOf(s#2))) && (forall k :: 0 <= k && k < len(arg1) ==> arg1[k] == StatusMsgOf(s#2)[k])
-//@   assert atcall `ws.NewCloseFrameBody(` [websocket-close-reason-ends-on-a-character-boundary C05] len(arg1) == len(StatusMsgOf(s#2))
+//@   assert atcall `ws.NewCloseFrameBody(` [websocket-close-reason-ends-on-a-character-boundary C05] len(arg1) == 0 || len(arg1) == len(StatusMsgOf(s#2))
 //@        || StatusMsgOf(s#2)[len(arg1)] < 128 || StatusMsgOf(s#2)[len(arg1)] >= 192
 //@   assert atcall `ws.NewCloseFrameBody(` [websocket-close-reason-is-cut-at-the-last-boundary C05] len(StatusMsgOf(s#2)) > 123 ==>
 //@        (forall k :: len(arg1) < k && k <= 123 ==> 128 <= StatusMsgOf(s#2)[k] && StatusMsgOf(s#2)[k] < 192)
+//@   loop 1 invariant 0 <= n && n <= 123 && len(msg) > 123 && (forall k :: n < k && k <= 123 ==> 128 <= msg[k] && msg[k] < 192)
+//@   loop 1 decreases n
 //@   witness verifWitnessWSCloseReason for websocket-close-reason-
 //@   assert atcall `ws.NewCloseFrameBody(` [websocket-close-code-is-the-mapped-code C05] (StatusCodeOf(s#2) <= 16 ==> arg0 == WSOf(StatusCodeOf(s#2))) && (StatusCodeOf(s#2) > 16 ==> arg0 == 1011)
 //@   count tags `sh.TagRPC(`
